@@ -457,6 +457,53 @@ func (st *c19State) op(f []string) string {
 			out = append(out, c19GEntry{string(e.Key()), int(e.SeqNum()), string(e.Value())})
 		}
 		return c19ShowEntries(out)
+	case "mg.thm":
+		// theorem instance on the implementation (C19.mergeEntries_newest_wins): for runs with ascending keys the
+		// output of kv.MergeEntries is strictly ascending, made of input entries, and the newest version of every key wins
+		runs := c19ParseRuns(f[1])
+		eruns := make([][]kv.Entry, len(runs))
+		for i, r := range runs {
+			for j, e := range r {
+				if j > 0 && !(r[j-1].key <= e.key) {
+					return "ok" // hypothesis (sorted runs) not met
+				}
+				eruns[i] = append(eruns[i], &c19KVEntry{key: []byte(e.key), val: []byte(e.val), seq: uint64(e.seq)})
+			}
+		}
+		var out []kv.Entry
+		for e := range kv.MergeEntries(c19Seqs(eruns)) {
+			out = append(out, e)
+		}
+		for i := 1; i < len(out); i++ {
+			if bytes.Compare(out[i-1].Key(), out[i].Key()) >= 0 {
+				return fmt.Sprintf("not-strictly-ascending at %d", i)
+			}
+		}
+		for _, o := range out {
+			found := false
+			for _, r := range eruns {
+				for _, e := range r {
+					found = found || e == o
+				}
+			}
+			if !found {
+				return "output-not-an-input"
+			}
+		}
+		for _, r := range eruns {
+			for _, y := range r {
+				ok := false
+				for _, o := range out {
+					if bytes.Equal(o.Key(), y.Key()) && o.SeqNum() >= y.SeqNum() {
+						ok = true
+					}
+				}
+				if !ok {
+					return fmt.Sprintf("newest-lost key=%s seq=%d", lib.Hex(y.Key()), y.SeqNum())
+				}
+			}
+		}
+		return "ok"
 	case "mg.gen":
 		runs := c19ParseRuns(f[2])
 		var pick func(a, b c19GEntry) c19GEntry
@@ -512,6 +559,35 @@ func (st *c19State) op(f []string) string {
 			return 0
 		})
 		return c19Found(i, ok)
+	case "su.tblthm":
+		// theorem instance on the implementation (C19.searchTables_correct): on a level of disjoint ascending ranges
+		// the lookup returns table i iff table i's RangeContainsKey holds, and none iff no table contains the key
+		var ts []*sst.Table
+		var prevEnd []byte
+		if f[2] != "_" {
+			for j, h := range strings.Split(f[2], ",") {
+				se := strings.Split(h, ":")
+				s0, e0 := lib.UnHex(se[0]), lib.UnHex(se[1])
+				if bytes.Compare(s0, e0) > 0 || (j > 0 && bytes.Compare(prevEnd, s0) >= 0) {
+					return "ok" // hypothesis (LevelOk) not met
+				}
+				prevEnd = e0
+				ts = append(ts, sst.VerifTableWithRange(s0, e0))
+			}
+		}
+		key := lib.UnHex(f[1])
+		i, ok := sliceu.SearchUnique(ts, key, (*sst.Table).RangeKeyCompare)
+		if ok && !ts[i].RangeContainsKey(key) {
+			return fmt.Sprintf("returned table %d does not contain the key", i)
+		}
+		if !ok {
+			for j, t := range ts {
+				if t.RangeContainsKey(key) {
+					return fmt.Sprintf("table %d contains the key but nothing was found", j)
+				}
+			}
+		}
+		return "ok"
 	case "su.tbl":
 		var ts []*sst.Table
 		if f[2] != "_" {
@@ -808,6 +884,8 @@ func c19Gen(r *lib.Rng, tier string, i int) lib.Case {
 		n := min(nops, 12)
 		for len(ops) < n {
 			switch x := r.Intn(100); {
+			case x < 10:
+				add("mg.thm %s", c19Runs(r, 5, 6, true, r.Bool(), true))
 			case x < 30:
 				add("mg.kv %s", c19Runs(r, 5, 6, true, true, true))
 			case x < 50:
@@ -866,6 +944,7 @@ func c19Gen(r *lib.Rng, tier string, i int) lib.Case {
 					list = strings.Join(ts, ",")
 				}
 				add("su.tbl %s %s", lib.Hex(t), list)
+				add("su.tblthm %s %s", lib.Hex(t), list)
 			}
 		}
 	}
@@ -911,6 +990,7 @@ func c19Fixed(tier string) []lib.Case {
 		}
 		for t := 0; t <= 4*n+1; t++ {
 			ops = append(ops, fmt.Sprintf("su.tbl %s %s", lib.Hex([]byte{byte(t)}), tl))
+			ops = append(ops, fmt.Sprintf("su.tblthm %s %s", lib.Hex([]byte{byte(t)}), tl))
 		}
 	}
 	cs = append(cs, lib.Case{Header: "M C19", Tags: []string{"search-exhaustive"}, Ops: ops})
